@@ -162,3 +162,62 @@ func (e *env) replaySemantic(rd replayData) {
 	}
 	os.RemoveAll(filepath.Join(e.work, "mal"))
 }
+
+// Part (f): include trees over several directories.  An include is resolved relative to the file that
+// names it, so the same directive text ("Types.tars") in two directories means two files.  Valid programs;
+// the real binary must accept them and emit a package for every module.
+func (e *env) partLayouts() (cases int) {
+	root := filepath.Join(e.work, "layout")
+	defer os.RemoveAll(root)
+	type file struct{ path, text string }
+	layouts := map[string][]file{
+		"same include name in two directories": {
+			{"Main.tars", "#include \"net/Svc.tars\"\n#include \"db/Svc.tars\"\nmodule MainM\n{\n    struct Both\n    {\n        0 require NetSvc::Req a;\n        1 require DbSvc::Req b;\n    };\n};\n"},
+			{"net/Svc.tars", "#include \"Types.tars\"\nmodule NetSvc\n{\n    struct Req\n    {\n        0 require NetT::Addr addr;\n    };\n};\n"},
+			{"net/Types.tars", "module NetT\n{\n    struct Addr\n    {\n        0 require string host;\n        1 optional int port = 80;\n    };\n};\n"},
+			{"db/Svc.tars", "#include \"Types.tars\"\nmodule DbSvc\n{\n    struct Req\n    {\n        0 require DbT::Row row;\n    };\n};\n"},
+			{"db/Types.tars", "module DbT\n{\n    struct Row\n    {\n        0 require long id;\n        1 optional vector<string> cols;\n    };\n};\n"},
+		},
+		"diamond: one file reached over two include paths": {
+			{"Main.tars", "#include \"l/Left.tars\"\n#include \"r/Right.tars\"\nmodule Top\n{\n    struct T\n    {\n        0 require L::A a;\n        1 require R::B b;\n    };\n};\n"},
+			{"l/Left.tars", "#include \"../Base.tars\"\nmodule L\n{\n    struct A\n    {\n        0 require Base0::K k;\n    };\n};\n"},
+			{"r/Right.tars", "#include \"../Base.tars\"\nmodule R\n{\n    struct B\n    {\n        0 require Base0::K k;\n    };\n};\n"},
+			{"Base.tars", "module Base0\n{\n    struct K\n    {\n        0 require int v;\n    };\n};\n"},
+		},
+	}
+	var names []string
+	for n := range layouts {
+		names = append(names, n)
+	}
+	sort.Strings(names)
+	for _, name := range names {
+		cases++
+		dir := filepath.Join(root, fmt.Sprint(cases))
+		for _, f := range layouts[name] {
+			p := filepath.Join(dir, f.path)
+			os.MkdirAll(filepath.Dir(p), 0o755)
+			os.WriteFile(p, []byte(f.text), 0o644)
+		}
+		tr := gen.RunTool(e.tars2go, dir, 30*time.Second, "-outdir", "out", "Main.tars")
+		e.addToolRuns(1)
+		var text strings.Builder
+		for _, f := range layouts[name] {
+			fmt.Fprintf(&text, "// ---- %s\n%s", f.path, f.text)
+		}
+		if out := realBinaryOutcome(tr); out != "ok" {
+			e.run.Violation("valid-rejected:include-layout", fmt.Sprintf("%s: a valid program over several directories: %s; files:\n%s", name, describeTool(tr, 30), text.String()),
+				replayData{Kind: "layout", Text: text.String(), Sig: "valid-rejected:include-layout"})
+			continue
+		}
+		// one package per module
+		mods := regexp.MustCompile(`(?m)^module\s+(\w+)`).FindAllStringSubmatch(text.String(), -1)
+		for _, m := range mods {
+			if ents, _ := filepath.Glob(filepath.Join(dir, "out", m[1], "*.go")); len(ents) == 0 {
+				e.run.Violation("valid-module-not-emitted:include-layout", fmt.Sprintf("%s: module %s: nothing emitted; files:\n%s", name, m[1], text.String()),
+					replayData{Kind: "layout", Text: text.String(), Sig: "valid-module-not-emitted:include-layout"})
+				break
+			}
+		}
+	}
+	return cases
+}
